@@ -143,7 +143,8 @@ LEVEL = {
              "mask, the durations and every stream other than log-F0 are independent of h in the pipeline model. Trajectory level (trajectory_shift): adding h to every static mean adds exactly h to every frame "
              "of the maximum-likelihood trajectory when the dynamic windows sum to zero (uniqueness of the normal-equation solution), and the same through the whole GV stage — conv_gv and the five Newton-like steps with "
              "their adaptive step size (trajectory_shift_with_gv: the objective changes by an iterate-independent constant, so the step decisions agree). "
-             "That log-F0 of the real engine moves by exactly h*ln2/12 is additionally decided on every run through the hook (two runs per case, 1e-6), as is the wiring in Engine::generator.",
+             "Capstone halftone_moves_the_trajectory: MlpgAdjust::create after apply_additional_half_tone(h) equals create plus h*ln2/12 on every voiced frame "
+             "(NODATA and frame count unchanged) while no state mean is clamped. That log-F0 of the real engine moves by exactly h*ln2/12 is additionally decided on every run through the hook (two runs per case, 1e-6), as is the wiring in Engine::generator.",
         note="Trusted: as C11; shift-equivariance of MLPG and of the GV iteration proved over an ordered field; the f64 implementation is compared at 1e-6.",
     ),
     "C17": dict(
